@@ -61,6 +61,7 @@ func RunFree(sc *Scenario) (events []Event, fatal string) {
 		opts = append(opts, mpb.WithAutoRefresh())
 	case "manual":
 		r.manual = make(chan interface{})
+		r.noMoreRefresh = make(chan struct{})
 		opts = append(opts, mpb.WithManualRefresh(r.manual))
 		if sc.Cfg.AutoToo {
 			opts = append(opts, mpb.WithAutoRefresh())
